@@ -184,7 +184,7 @@ func propC07(r *kernel.Run) {
 	switch mode {
 	case "history":
 		creds, _ := enrollStored(r, srv, nodeW, nil, "")
-		n := tp.Range(3, 9)
+		n := tp.Range(3, r.Deep(9, 25))
 		for i := 0; i < n; i++ {
 			if tp.Draw(2) == 0 {
 				d := tp.DurLog(time.Hour, 12*24*time.Hour)
